@@ -1,6 +1,7 @@
 // shared by the handle_* units: opaque collaborators of LoggerHandle / WritersHandle
 //@ include prelude/logcrate.rs
 //@ include prelude/sync.rs
+//@ include prelude/combinators.rs
 
 pub mod flexi_error {
     use super::*;
